@@ -397,11 +397,11 @@ def protocol(c1, c2, prior):
     return tuple(seq)
 
 
-def check_motors_enable(ck, eng):
+def check_motors_enable(ck, eng, deep=False):
     fn = eng.method('motors_enable')
     q = fn.qualname
     p1, p2 = fn.params[1:3]
-    reps = [-3, 0, 1, 2, 3, 4, 5, 9]
+    reps = list(range(-4, 11)) if deep else [-3, 0, 1, 2, 3, 4, 5, 9]
     n = 0
     for r1, r2 in itertools.product(reps, reps):
         c1, c2 = clamp(r1), clamp(r2)
@@ -493,7 +493,7 @@ def run(ck, prog, tier):
         check_var_read(ck, eng)
         check_nickname(ck, eng)
         check_decode_map(ck, eng)
-        check_motors_enable(ck, eng)
+        check_motors_enable(ck, eng, tier == 'thorough')
     finally:
         poly.INT_VARS.clear()
     check_query_payload(ck, prog, cls)
